@@ -1,8 +1,7 @@
 (* UidRecent/Check.v — case checkers for the correspondence runs of C04/C17
    (harness/uidrecent.py).  A case is a history: the operations issued and,
    for each, what the real server answered.  The model replays the history;
-   wherever the code is free to choose (any_selected; the two tolerated
-   answers of CLOSE/MOVE on a read-only selection) every allowed choice is
+   wherever the code is free to choose (any_selected) every allowed choice is
    tried, and the history is accepted iff some allowed resolution explains
    every observation.  Mailbox identities are matched with the observed
    UIDVALIDITY values through a map built on the way (same model mailbox =>
@@ -86,24 +85,21 @@ Definition choices_for (st : sys) (o : op) : list choice :=
   match o with
   | Append s nm _ =>
     match find_box st nm with
-    | Some (i, _) => map (fun p => mkChoice p false) (picks st s i)
-    | None => [mkChoice None false]
+    | Some (i, _) => map (fun p => mkChoice p) (picks st s i)
+    | None => [mkChoice None]
     end
   | Copy s _ nm =>
     match find_box st nm with
-    | Some (i, _) => map (fun p => mkChoice p false) (picks st s i)
-    | None => [mkChoice None false]
+    | Some (i, _) => map (fun p => mkChoice p) (picks st s i)
+    | None => [mkChoice None]
     end
   | Move s _ nm =>
     match find_box st nm with
     | Some (i, _) =>
-      map (fun p => mkChoice p false) (picks st s i)
-      ++ (if conn_ro st s then [mkChoice None true] else [])
-    | None => [mkChoice None false]
+      map (fun p => mkChoice p) (picks st s i)
+    | None => [mkChoice None]
     end
-  | Close s => if conn_ro st s then [mkChoice None false; mkChoice None true]
-               else [mkChoice None false]
-  | _ => [mkChoice None false]
+  | _ => [mkChoice None]
   end.
 
 Fixpoint search (full : bool) (st : sys) (vm : vmap) (tr : list (op * out)) : bool :=
